@@ -121,7 +121,7 @@ def even (emit : Int) : Bytes := if emit % 2 = 1 then [0] else []
 def odd (emit : Int) : Bytes := if emit % 2 = 0 then [0] else []
 
 def align (emit : Int) (n : Int) : M Bytes := do
-  let c ← getAsIntM none true n
+  let c ← getAsIntM (some 16) true n
   if c = 0 then do err "value-out-of-bounds"; pure []
   else pure (zeros ((-emit) % (c : Int)).toNat)
 
